@@ -448,5 +448,480 @@ Qed.
 Lemma t_conforms_partial : t_conforms_partial_statement.
 Proof. intros p t v Hok Hwf. unfold TMarshal. apply conforms_gen; [assumption | left; assumption]. Qed.
 
+(* ---------- C08: totality of decoding ---------- *)
+(* the result is a value with a strictly smaller measure, or an error: never a panic, never out of fuel *)
+Definition gd {A} (m : A -> nat) (n : nat) (x : tres A) : Prop :=
+  match x with TOk a => (m a < n)%nat | TErr _ => True | TPanic => False | TOutOfFuel => False end.
+Definition mp {A} (a : A * bytes) : nat := length (snd a).
+Definition ms (r : bytes) : nat := length r.
+
+Lemma gd_bind {A B} (mA : A -> nat) (mB : B -> nat) n n' (x : tres A) (k : A -> tres B) :
+  gd mA n x -> (forall a, (mA a < n)%nat -> gd mB n' (k a)) -> gd mB n' (tbind x k).
+Proof. destruct x; simpl; auto; contradiction. Qed.
+Lemma gd_dee {A} (m : A -> nat) n (x : tres A) : gd m n x -> gd m n (dont_expect_eof x).
+Proof. destruct x as [a|e| |]; simpl; auto. destruct e; simpl; auto. Qed.
+Lemma gd_mono {A} (m : A -> nat) n n' (x : tres A) : (n <= n')%nat -> gd m n x -> gd m n' x.
+Proof. destruct x; simpl; auto. lia. Qed.
+
+(* --- copies of the loops of skip and dec, parameterised by the recursive calls --- *)
+Section SkipLoops.
+  Variable p : proto.
+  Variable skipf : Z -> bytes -> tres bytes.
+  Section L.
+    Variable et : Z.
+    Fixpoint sk_list (k : nat) (cnt : Z) (r : bytes) : tres bytes :=
+      if cnt <=? 0 then TOk r else
+      match k with O => TOutOfFuel | S k' => tlet r <- dont_expect_eof (skipf et r) in sk_list k' (cnt - 1) r end.
+  End L.
+  Section M.
+    Variables kt vt : Z.
+    Fixpoint sk_map (k : nat) (cnt : Z) (r : bytes) : tres bytes :=
+      if cnt <=? 0 then TOk r else
+      match k with O => TOutOfFuel | S k' =>
+        tlet r <- dont_expect_eof (skipf kt r) in
+        tlet r <- dont_expect_eof (skipf vt r) in sk_map k' (cnt - 1) r end.
+  End M.
+  Fixpoint sk_struct (k : nat) (r : bytes) (last : Z) (nfields : Z) : tres bytes :=
+    match k with O => TOutOfFuel | S k' =>
+      match r_field p r with
+      | TErr e => TErr (if (nfields >? 0) && (match e with EEOF => true | _ => false end) then EUnexpectedEOF else e)
+      | TPanic => TPanic | TOutOfFuel => TOutOfFuel
+      | TOk ((id, fty, isdelta), r) =>
+          if fty =? c_STOP then TOk r else
+          let id := if isdelta then s16 (id + last) else id in
+          tlet r <- dont_expect_eof
+                      (if ((fty =? c_TRUE) || (fty =? c_BOOL)) && (match p with PCompact => true | PBinary => false end)
+                       then TOk r else skipf fty r) in
+          sk_struct k' r id (nfields + 1)
+      end
+    end.
+  Definition skip_body (f : nat) (ty : Z) (b : bytes) : tres bytes :=
+    if (ty =? c_TRUE) || (ty =? c_BOOL) || (ty =? c_I8) then tlet (_, r) <- r_byte b in TOk r
+    else if ty =? c_I16 then tlet (_, r) <- r_i16 p b in TOk r
+    else if ty =? c_I32 then tlet (_, r) <- r_i32 p b in TOk r
+    else if ty =? c_I64 then tlet (_, r) <- r_i64 p b in TOk r
+    else if ty =? c_DOUBLE then tlet (_, r) <- r_f64 p b in TOk r
+    else if ty =? c_BINARY then
+      tlet (n, r) <- r_len p b in
+      if n =? 0 then TOk r else if len r <? n then TErr EUnexpectedEOF else TOk (slice_from r n)
+    else if (ty =? c_LIST) || (ty =? c_SET) then
+      tlet (h, r) <- r_list p b in
+      let '(n, et) := h in sk_list et (S (length r)) n r
+    else if ty =? c_MAP then
+      tlet (h, r) <- r_map p b in
+      let '(n, kt, vt) := h in sk_map kt vt (S (length r)) n r
+    else if ty =? c_STRUCT then sk_struct f b 0 0
+    else TErr EOther.
+End SkipLoops.
+Lemma skip_S f p ty b : skip (S f) p ty b = skip_body p (skip f p) f ty b.
+Proof. reflexivity. Qed.
+
+Section DecLoops.
+  Variable p : proto.
+  Variable decf : tty -> Z -> tval -> bytes -> tres (tval * bytes).
+  Variable skipf : Z -> bytes -> tres bytes.
+  Variable flags : Z.
+  Section L.
+    Variable et : tty.
+    Fixpoint dl_list (k : nat) (cnt : Z) (acc : list tval) (r : bytes) : tres (tval * bytes) :=
+      if cnt <=? 0 then TOk (TvList true (rev acc), r) else
+      match k with
+      | O => TOutOfFuel
+      | S k' => tlet (x, r) <- dont_expect_eof (decf et (Z.land flags f_strict) (zero_of et) r) in dl_list k' (cnt - 1) (x :: acc) r
+      end.
+    Fixpoint dl_set (k : nat) (cnt : Z) (acc : list tval) (r : bytes) : tres (tval * bytes) :=
+      if cnt <=? 0 then TOk (TvSet true acc, r) else
+      match k with
+      | O => TOutOfFuel
+      | S k' => tlet (x, r) <- dont_expect_eof (decf et (Z.land flags f_strict) (zero_of et) r) in dl_set k' (cnt - 1) (set_add acc x) r
+      end.
+  End L.
+  Section M.
+    Variables kt vt : tty.
+    Fixpoint dl_map (k : nat) (cnt : Z) (acc : list (tval * tval)) (r : bytes) : tres (tval * bytes) :=
+      if cnt <=? 0 then TOk (TvMap true acc, r) else
+      match k with
+      | O => TOutOfFuel
+      | S k' =>
+          tlet (x, r) <- dont_expect_eof (decf kt (Z.land flags f_strict) (zero_of kt) r) in
+          tlet (y, r) <- dont_expect_eof (decf vt (Z.land flags f_strict) (zero_of vt) r) in
+          dl_map k' (cnt - 1) (map_set acc x y) r
+      end.
+  End M.
+  Section S.
+    Variable fs : list tfield.
+    Variables minID nslots nwords : Z.
+    Variable lookup : Z -> option (nat * tfield).
+    Fixpoint dl_struct (k : nat) (r : bytes) (last : Z) (nfields : Z) (vs : list tval) (seen : list Z) : tres (tval * bytes) :=
+      match k with O => TOutOfFuel | S k' =>
+        match r_field p r with
+        | TErr e => TErr (if (nfields >? 0) && (match e with EEOF => true | _ => false end) then EUnexpectedEOF else e)
+        | TPanic => TPanic | TOutOfFuel => TOutOfFuel
+        | TOk ((id, fty, isdelta), r) =>
+            if fty =? c_STOP then
+              let missing := existsb (fun fd => has_flag (fld_flags fd) f_required && negb (existsb (Z.eqb (fld_id fd - minID)) seen)) fs in
+              if missing then TErr EMissing else TOk (TvStruct vs, r)
+            else
+            let id := if isdelta then s16 (id + last) else id in
+            let slot := id - minID in
+            let known := if (slot <? 0) || (slot >=? nslots) then None else lookup id in
+            match known with
+            | None =>
+                tlet r <- dont_expect_eof
+                            (if ((fty =? c_TRUE) || (fty =? c_BOOL)) && (match p with PCompact => true | PBinary => false end)
+                             then TOk r else skipf fty r) in
+                dl_struct k' r id (nfields + 1) vs seen
+            | Some (i, fd) =>
+                if (slot / 64 >=? nwords) then TPanic else
+                let seen := slot :: seen in
+                let fexp := type_of (fld_ty fd) in
+                if negb (fty =? fexp) && negb ((fty =? c_TRUE) && (fexp =? c_BOOL)) then
+                  (if has_flag flags f_strict then TErr EMismatch else dl_struct k' r id (nfields + 1) vs seen)
+                else
+                let oldf := nth i vs (zero_of (fld_ty fd)) in
+                if (match p with PCompact => true | PBinary => false end) && ((fty =? c_TRUE) || (fty =? c_BOOL)) then
+                  dl_struct k' r id (nfields + 1) (set_nth vs i (wrap_ptrs (fld_ty fd) (TvBool (fty =? c_TRUE)))) seen
+                else
+                let fl := Z.lor (Z.land flags f_strict) (fld_flags fd) in
+                tlet (x, r) <- dont_expect_eof
+                                 (if has_flag (fld_flags fd) f_enum then
+                                    match fld_ty fd with
+                                    | ThI8 | ThI16 | ThI32 | ThI64 => tlet (z, r) <- r_i32 p r in TOk (TvInt z, r)
+                                    | ft => decf ft fl oldf r
+                                    end
+                                  else decf (fld_ty fd) fl oldf r) in
+                dl_struct k' r id (nfields + 1) (set_nth vs i x) seen
+            end
+        end
+      end.
+  End S.
+  Definition lookup_f (fs : list tfield) (id : Z) : option (nat * tfield) :=
+    (fix go (fs : list tfield) (i : nat) : option (nat * tfield) :=
+       match fs with [] => None | fd :: r => if fld_id fd =? id then Some (i, fd) else go r (S i) end) fs O.
+  Definition dec_body (f : nat) (t : tty) (old : tval) (b : bytes) : tres (tval * bytes) :=
+    match t with
+    | ThBool => tlet (x, r) <- r_byte b in TOk (TvBool (negb (x =? 0)), r)
+    | ThI8 => tlet (x, r) <- r_byte b in TOk (TvInt (s8 x), r)
+    | ThI16 => tlet (x, r) <- r_i16 p b in TOk (TvInt x, r)
+    | ThI32 => tlet (x, r) <- r_i32 p b in TOk (TvInt x, r)
+    | ThI64 => tlet (x, r) <- r_i64 p b in TOk (TvInt x, r)
+    | ThF64 => tlet (x, r) <- r_f64 p b in TOk (TvInt x, r)
+    | ThStr | ThBytes => tlet (s, r) <- r_bytes p b in TOk (TvBytes true s, r)
+    | ThPtr t' =>
+        let cur := match old with TvPtr (Some x) => x | _ => zero_of t' end in
+        tlet (x, r) <- decf t' flags cur b in TOk (TvPtr (Some x), r)
+    | ThList et =>
+        tlet (h, r) <- r_list p b in
+        let '(n, lt) := h in
+        let lt := if lt =? c_TRUE then c_BOOL else lt in
+        if negb (type_of et =? lt) then (if has_flag flags f_strict then TErr EMismatch else TOk (old, r)) else
+        if n <? 0 then TErr EOther else dl_list et (S (length r)) n [] r
+    | ThSet kt =>
+        tlet (h, r) <- r_list p b in
+        let '(n, lt) := h in
+        let lt := if lt =? c_TRUE then c_BOOL else lt in
+        if n <? 0 then TErr EOther else
+        if n =? 0 then TOk (TvSet true [], r) else
+        if negb (type_of kt =? lt) then (if has_flag flags f_strict then TErr EMismatch else TOk (TvSet true [], r)) else
+        dl_set kt (S (length r)) n [] r
+    | ThMap kt vt =>
+        tlet (h, r) <- r_map p b in
+        let '(n, mk, mv) := h in
+        if n <? 0 then TErr EOther else
+        if n =? 0 then TOk (TvMap true [], r) else
+        if negb (type_of kt =? mk) then (if has_flag flags f_strict then TErr EMismatch else TOk (TvMap true [], r)) else
+        if negb (type_of vt =? mv) then (if has_flag flags f_strict then TErr EMismatch else TOk (TvMap true [], r)) else
+        dl_map kt vt (S (length r)) n [] r
+    | ThStruct fs =>
+        let vs := match old with TvStruct vs => vs | _ => match zero_of t with TvStruct z => z | _ => [] end end in
+        let ids := map fld_id fs in
+        let minID := fold_left (fun m i => if (i <? m) || (m =? 0) then i else m) ids 0 in
+        let maxID := fold_left Z.max ids 0 in
+        let nslots := maxID - minID + 1 in
+        let nwords := nslots / 64 + 1 in
+        dl_struct fs minID nslots nwords (lookup_f fs) f b 0 0 vs []
+    end.
+End DecLoops.
+Lemma dec_S f p t flags old b : dec (S f) p t flags old b = dec_body p (dec f p) (skip f p) flags f t old b.
+Proof. destruct t; reflexivity. Qed.
+
+(* --- readers: on success the rest is strictly shorter than the input --- *)
+Ltac fin := repeat match goal with H : gd _ _ (TOk _) |- _ => unfold gd in H end; unfold mp, ms in *; unfold gd; cbn [snd fst length] in *; try exact I; try lia.
+Tactic Notation "gb" constr(L) := eapply gd_bind; [apply L | intros [a1 r1] H1].
+
+Lemma g_byte b : gd mp (length b) (r_byte b).
+Proof. destruct b; simpl; fin. Qed.
+Lemma g_full n b : (0 < n)%nat -> gd mp (length b) (r_full n b).
+Proof.
+  intros Hn. unfold r_full. destruct (Nat.eqb_spec n 0); [lia|].
+  destruct b as [|z b']; [exact I|]. destruct (Nat.ltb_spec (length (z :: b')) n); [exact I|].
+  unfold gd, mp; cbn [snd]. rewrite skipn_length. lia.
+Qed.
+Lemma g_uvl : forall fuel i x s b, gd mp (length b) (r_uvarint_loop fuel i x s b).
+Proof.
+  induction fuel; intros i x s b; cbn [r_uvarint_loop]; [exact I|].
+  destruct b as [|c r]; [exact I|]. destruct (c <? 128).
+  - destruct ((i =? 9) && (c >? 1)); fin.
+  - eapply gd_mono; [|apply IHfuel]. simpl; lia.
+Qed.
+Lemma g_uvarint mx b : gd mp (length b) (r_uvarint mx b).
+Proof. unfold r_uvarint. gb g_uvl. destruct (a1 >? mx); fin. Qed.
+Lemma g_varint lo hi b : gd mp (length b) (r_varint lo hi b).
+Proof. unfold r_varint. gb g_uvl. cbv zeta. destruct ((unzz a1 <? lo) || (unzz a1 >? hi)); fin. Qed.
+Lemma g_i16 p b : gd mp (length b) (r_i16 p b).
+Proof. destruct p; unfold r_i16; [gb g_full; fin | apply g_varint]. Qed.
+Lemma g_i32 p b : gd mp (length b) (r_i32 p b).
+Proof. destruct p; unfold r_i32; [gb g_full; fin | apply g_varint]. Qed.
+Lemma g_i64 p b : gd mp (length b) (r_i64 p b).
+Proof. destruct p; unfold r_i64; [gb g_full; fin | apply g_varint]. Qed.
+Lemma g_f64 p b : gd mp (length b) (r_f64 p b).
+Proof. unfold r_f64; gb g_full; fin. Qed.
+Lemma g_len p b : gd mp (length b) (r_len p b).
+Proof.
+  destruct p; unfold r_len; [|apply g_uvarint].
+  gb g_full; [lia|]. cbv zeta. destruct (be_val a1 >? 2 ^ 31 - 1); fin.
+Qed.
+Lemma g_bytes p b : gd mp (length b) (r_bytes p b).
+Proof.
+  unfold r_bytes. gb g_len. destruct (len r1 <? a1); [exact I|].
+  unfold gd, mp, slice_from in *; cbn [snd] in *. rewrite skipn_length. lia.
+Qed.
+Lemma g_field p b : gd mp (length b) (r_field p b).
+Proof.
+  destruct p; unfold r_field.
+  - gb g_byte. eapply gd_bind; [apply gd_dee, g_i16|]. intros [? ?] ?. fin.
+  - gb g_byte. destruct (a1 =? c_STOP); [fin|]. destruct (negb (Z.shiftr a1 4 =? 0)); [fin|].
+    eapply gd_bind; [apply gd_dee, g_i16|]. intros [? ?] ?. fin.
+Qed.
+Lemma g_list p b : gd mp (length b) (r_list p b).
+Proof.
+  destruct p; unfold r_list.
+  - gb g_byte. eapply gd_bind; [apply gd_dee, g_i32|]. intros [? ?] ?. fin.
+  - gb g_byte. destruct (negb (Z.shiftr a1 4 =? 15)); [fin|].
+    eapply gd_bind; [apply gd_dee, g_uvarint|]. intros [? ?] ?. fin.
+Qed.
+Lemma g_map p b : gd mp (length b) (r_map p b).
+Proof.
+  destruct p; unfold r_map.
+  - gb g_byte. eapply gd_bind; [apply gd_dee, g_byte|]. intros [? ?] ?.
+    eapply gd_bind; [apply gd_dee, g_i32|]. intros [? ?] ?. fin.
+  - gb g_uvarint. destruct (a1 =? 0); [fin|].
+    eapply gd_bind; [apply gd_dee, g_byte|]. intros [? ?] ?. fin.
+Qed.
+
+(* --- skip --- *)
+Section SkipLoopLemmas.
+  Variables (p : proto) (skipf : Z -> bytes -> tres bytes) (N : nat).
+  Hypothesis Hskip : forall ty r, (length r < N)%nat -> gd ms (length r) (skipf ty r).
+  Lemma g_sk_list et : forall k cnt r, (length r < N)%nat -> (length r < k)%nat ->
+    gd ms (S (length r)) (sk_list skipf et k cnt r).
+  Proof.
+    induction k; intros cnt r HN Hk; [lia|]. cbn [sk_list].
+    destruct (cnt <=? 0); [fin|].
+    eapply gd_bind; [apply gd_dee, Hskip, HN|]. intros r' Hr'.
+    eapply gd_mono; [|apply IHk]; fin.
+  Qed.
+  Lemma g_sk_map kt vt : forall k cnt r, (length r < N)%nat -> (length r < k)%nat ->
+    gd ms (S (length r)) (sk_map skipf kt vt k cnt r).
+  Proof.
+    induction k; intros cnt r HN Hk; [lia|]. cbn [sk_map].
+    destruct (cnt <=? 0); [fin|].
+    eapply gd_bind; [apply gd_dee, Hskip, HN|]. intros r' Hr'.
+    eapply gd_bind; [apply gd_dee, Hskip; fin|]. intros r'' Hr''.
+    eapply gd_mono; [|apply IHk]; fin.
+  Qed.
+  Lemma g_sk_struct : forall k r last nf, (length r <= N)%nat -> (length r < k)%nat ->
+    gd ms (length r) (sk_struct p skipf k r last nf).
+  Proof.
+    induction k; intros r last nf HN Hk; [lia|]. cbn [sk_struct].
+    pose proof (g_field p r) as Hf.
+    destruct (r_field p r) as [[[[id fty] isd] r1]|e| |]; try contradiction; [|exact I].
+    destruct (fty =? c_STOP); [fin|]. cbv zeta.
+    eapply gd_bind with (mA := ms) (n := S (length r1)).
+    - apply gd_dee.
+      destruct (((fty =? c_TRUE) || (fty =? c_BOOL)) && match p with PBinary => false | PCompact => true end); [fin|].
+      eapply gd_mono; [|apply Hskip]; fin.
+    - intros r2 H2. eapply gd_mono; [|apply IHk]; fin.
+  Qed.
+End SkipLoopLemmas.
+
+Lemma skip_ok : forall fuel p ty b, (length b + 2 <= fuel)%nat -> gd ms (length b) (skip fuel p ty b).
+Proof.
+  induction fuel; intros p ty b Hf; [lia|]. rewrite skip_S. unfold skip_body.
+  assert (Hskip : forall ty r, (length r < length b)%nat -> gd ms (length r) (skip fuel p ty r)).
+  { intros; apply IHfuel; lia. }
+  destruct ((ty =? c_TRUE) || (ty =? c_BOOL) || (ty =? c_I8)); [gb g_byte; fin|].
+  destruct (ty =? c_I16); [gb g_i16; fin|].
+  destruct (ty =? c_I32); [gb g_i32; fin|].
+  destruct (ty =? c_I64); [gb g_i64; fin|].
+  destruct (ty =? c_DOUBLE); [gb g_f64; fin|].
+  destruct (ty =? c_BINARY).
+  { gb g_len. destruct (a1 =? 0); [fin|]. destruct (len r1 <? a1); [exact I|].
+    unfold gd, ms, mp, slice_from in *; cbn [snd] in *. rewrite skipn_length. lia. }
+  destruct ((ty =? c_LIST) || (ty =? c_SET)).
+  { gb g_list. destruct a1 as [n et]. eapply gd_mono; [|apply g_sk_list with (N := length b); [exact Hskip | fin | fin]]; fin. }
+  destruct (ty =? c_MAP).
+  { gb g_map. destruct a1 as [[n kt] vt]. eapply gd_mono; [|apply g_sk_map with (N := length b); [exact Hskip | fin | fin]]; fin. }
+  destruct (ty =? c_STRUCT); [|exact I].
+  apply g_sk_struct with (N := length b); [exact Hskip | lia | lia].
+Qed.
+
+(* --- dec --- *)
+Section DecCollLemmas.
+  Variable decf : tty -> Z -> tval -> bytes -> tres (tval * bytes).
+  Variables (flags : Z) (N : nat).
+  Section Coll.
+    Variable et : tty.
+    Hypothesis Hdec : forall fl o r, (length r < N)%nat -> gd mp (length r) (decf et fl o r).
+    Lemma g_dl_list : forall k cnt acc r, (length r < N)%nat -> (length r < k)%nat ->
+      gd mp (S (length r)) (dl_list decf flags et k cnt acc r).
+    Proof.
+      induction k; intros cnt acc r HN Hk; [lia|]. cbn [dl_list].
+      destruct (cnt <=? 0); [fin|].
+      eapply gd_bind; [apply gd_dee, Hdec, HN|]. intros [x r'] Hr'.
+      eapply gd_mono; [|apply IHk]; fin.
+    Qed.
+    Lemma g_dl_set : forall k cnt acc r, (length r < N)%nat -> (length r < k)%nat ->
+      gd mp (S (length r)) (dl_set decf flags et k cnt acc r).
+    Proof.
+      induction k; intros cnt acc r HN Hk; [lia|]. cbn [dl_set].
+      destruct (cnt <=? 0); [fin|].
+      eapply gd_bind; [apply gd_dee, Hdec, HN|]. intros [x r'] Hr'.
+      eapply gd_mono; [|apply IHk]; fin.
+    Qed.
+  End Coll.
+  Section MapL.
+    Variables kt vt : tty.
+    Hypothesis Hdk : forall fl o r, (length r < N)%nat -> gd mp (length r) (decf kt fl o r).
+    Hypothesis Hdv : forall fl o r, (length r < N)%nat -> gd mp (length r) (decf vt fl o r).
+    Lemma g_dl_map : forall k cnt acc r, (length r < N)%nat -> (length r < k)%nat ->
+      gd mp (S (length r)) (dl_map decf flags kt vt k cnt acc r).
+    Proof.
+      induction k; intros cnt acc r HN Hk; [lia|]. cbn [dl_map].
+      destruct (cnt <=? 0); [fin|].
+      eapply gd_bind; [apply gd_dee, Hdk, HN|]. intros [x r'] Hr'.
+      eapply gd_bind; [apply gd_dee, Hdv; fin|]. intros [y r''] Hr''.
+      eapply gd_mono; [|apply IHk]; fin.
+    Qed.
+  End MapL.
+End DecCollLemmas.
+Section DecLoopLemmas.
+  Variables (p : proto) (decf : tty -> Z -> tval -> bytes -> tres (tval * bytes)) (skipf : Z -> bytes -> tres bytes).
+  Variables (flags : Z) (N : nat).
+  Section StructL.
+    Variable fs : list tfield.
+    Variables minID nslots nwords : Z.
+    Variable lookup : Z -> option (nat * tfield).
+    Hypothesis Hdec : forall fd fl o r, In fd fs -> (length r < N)%nat -> gd mp (length r) (decf (fld_ty fd) fl o r).
+    Hypothesis Hskip : forall ty r, (length r < N)%nat -> gd ms (length r) (skipf ty r).
+    Hypothesis Hlk : forall id i fd, lookup id = Some (i, fd) -> In fd fs.
+    Hypothesis Hw : nwords = nslots / 64 + 1.
+    Lemma g_dl_struct : forall k r last nf vs seen, (length r <= N)%nat -> (length r < k)%nat ->
+      gd mp (length r) (dl_struct p decf skipf flags fs minID nslots nwords lookup k r last nf vs seen).
+    Proof.
+      induction k; intros r last nf vs seen HN Hk; [lia|]. cbn [dl_struct].
+      pose proof (g_field p r) as Hf.
+      destruct (r_field p r) as [[[[id fty] isd] r1]|e| |]; try contradiction; [|exact I].
+      destruct (fty =? c_STOP).
+      { cbv zeta. match goal with |- context [if ?c then _ else _] => destruct c end; fin. }
+      cbv zeta. set (id' := if isd then s16 (id + last) else id). set (slot := id' - minID).
+      assert (HNone : gd mp (length r)
+                (tlet r0 <- dont_expect_eof
+                             (if ((fty =? c_TRUE) || (fty =? c_BOOL)) && match p with PBinary => false | PCompact => true end
+                              then TOk r1 else skipf fty r1) in
+                 dl_struct p decf skipf flags fs minID nslots nwords lookup k r0 id' (nf + 1) vs seen)).
+      { eapply gd_bind with (mA := ms) (n := S (length r1)).
+        - apply gd_dee.
+          destruct (((fty =? c_TRUE) || (fty =? c_BOOL)) && match p with PBinary => false | PCompact => true end); [fin|].
+          eapply gd_mono; [|apply Hskip]; fin.
+        - intros r2 H2. eapply gd_mono; [|apply IHk]; fin. }
+      destruct ((slot <? 0) || (slot >=? nslots)) eqn:Eb; [exact HNone|].
+      destruct (lookup id') as [[i fd]|] eqn:El; [|exact HNone].
+      clear HNone. apply Hlk in El.
+      destruct (slot / 64 >=? nwords) eqn:Ew; [exfalso; lia|].
+      match goal with |- context [if ?c then _ else _] => destruct c end.
+      { destruct (has_flag flags f_strict); [exact I|]. eapply gd_mono; [|apply IHk]; fin. }
+      match goal with |- context [if ?c then _ else _] => destruct c end.
+      { eapply gd_mono; [|apply IHk]; fin. }
+      eapply gd_bind with (mA := mp) (n := length r1).
+      - apply gd_dee.
+        assert (Hd : forall fl o, gd mp (length r1) (decf (fld_ty fd) fl o r1)) by (intros; apply Hdec; [assumption | fin]).
+        destruct (has_flag (fld_flags fd) f_enum); [|apply Hd].
+        destruct (fld_ty fd); try apply Hd; (eapply gd_bind; [apply g_i32 | intros [a2 r2] H2; fin]).
+      - intros [x r2] H2. eapply gd_mono; [|apply IHk]; fin.
+    Qed.
+  End StructL.
+End DecLoopLemmas.
+
+Lemma lookup_in fs id : forall i fd, lookup_f fs id = Some (i, fd) -> In fd fs.
+Proof.
+  unfold lookup_f. generalize O. induction fs as [|f r IH]; intros n i fd H; [discriminate|].
+  destruct (fld_id f =? id).
+  - injection H as _ <-. left; reflexivity.
+  - right. eapply IH; eassumption.
+Qed.
+Lemma tdepth_field fs fd : In fd fs -> (tdepth (fld_ty fd) < tdepth (ThStruct fs))%nat.
+Proof.
+  intros Hin. simpl. apply Nat.lt_succ_r.
+  induction fs as [|[id fl ft] r IH]; [contradiction|].
+  destruct Hin as [<-|Hin]; simpl; [lia|]. specialize (IH Hin). lia.
+Qed.
+
+Lemma dec_ok : forall fuel p t flags old b, (length b + tdepth t + 1 <= fuel)%nat ->
+  gd mp (length b) (dec fuel p t flags old b).
+Proof.
+  induction fuel; intros p t flags old b Hf; [lia|]. rewrite dec_S.
+  assert (Hdec : forall t' fl o r, (tdepth t' < tdepth t)%nat -> (length r < length b)%nat ->
+                   gd mp (length r) (dec fuel p t' fl o r)).
+  { intros; apply IHfuel; lia. }
+  assert (Hdec0 : forall t' fl o, (tdepth t' < tdepth t)%nat -> gd mp (length b) (dec fuel p t' fl o b)).
+  { intros; apply IHfuel; lia. }
+  destruct t; unfold dec_body.
+  - gb g_byte; fin.
+  - gb g_byte; fin.
+  - gb g_i16; fin.
+  - gb g_i32; fin.
+  - gb g_i64; fin.
+  - gb g_f64; fin.
+  - gb g_bytes; fin.
+  - gb g_bytes; fin.
+  - (* list *) gb g_list. destruct a1 as [n lt]. cbv zeta.
+    match goal with |- context [if ?c then _ else _] => destruct c end.
+    { destruct (has_flag flags f_strict); fin. }
+    destruct (n <? 0); [exact I|].
+    eapply gd_mono; [|apply g_dl_list with (N := length b); [|fin|fin]]; [fin|].
+    intros; apply Hdec; [simpl; lia | assumption].
+  - (* set *) gb g_list. destruct a1 as [n lt]. cbv zeta.
+    destruct (n <? 0); [exact I|]. destruct (n =? 0); [fin|].
+    match goal with |- context [if ?c then _ else _] => destruct c end.
+    { destruct (has_flag flags f_strict); fin. }
+    eapply gd_mono; [|apply g_dl_set with (N := length b); [|fin|fin]]; [fin|].
+    intros; apply Hdec; [simpl; lia | assumption].
+  - (* map *) gb g_map. destruct a1 as [[n mk] mv].
+    destruct (n <? 0); [exact I|]. destruct (n =? 0); [fin|].
+    match goal with |- context [if ?c then _ else _] => destruct c end.
+    { destruct (has_flag flags f_strict); fin. }
+    match goal with |- context [if ?c then _ else _] => destruct c end.
+    { destruct (has_flag flags f_strict); fin. }
+    eapply gd_mono; [|apply g_dl_map with (N := length b); [| |fin|fin]]; [fin| |].
+    + intros; apply Hdec; [simpl; lia | assumption].
+    + intros; apply Hdec; [simpl; lia | assumption].
+  - (* struct *) cbv zeta.
+    eapply g_dl_struct with (N := length b).
+    + intros fd fl o r Hin Hr. apply Hdec; [apply tdepth_field; assumption | assumption].
+    + intros ty r Hr. apply skip_ok. simpl in Hf. lia.
+    + apply lookup_in.
+    + reflexivity.
+    + lia.
+    + simpl in Hf. lia.
+  - (* ptr *) cbv zeta. eapply gd_bind; [apply Hdec0; simpl; lia|]. intros [x r] H. fin.
+Qed.
+
 Lemma t_decode_total : t_decode_total_statement.
-Admitted.
+Proof.
+  intros p t b fuel _ _ _ Hf. unfold TUnmarshal.
+  assert (H : gd mp (length b) (dec fuel p t 0 (zero_of t) b)) by (apply dec_ok; lia).
+  destruct (dec fuel p t 0 (zero_of t) b) as [[v r]|e| |]; try contradiction.
+  - simpl. destruct r; [left | right]; eexists; reflexivity.
+  - right. eexists; reflexivity.
+Qed.
